@@ -29,3 +29,8 @@ claim("C13", "wire-grammar extraction and sibling agreement of encoder vs decode
       "Decides for every (format, rate, channels, frames) at once: encoder and decoder walk the same fields/widths/guards; rf_wavheader_init writes every field; the stored RIFF size equals the bytes the encoder emits for that format; block_align/byte_rate/bits_per_sample/audio_format and the set_num_frames updates are the stated polynomials; validate accepts the initialised header; every field that can be non-zero is transferred (round-trip identity).",
       "Byte-exact re-encoding of every accepted byte string is decided only up to walk agreement (same fields, widths, guards). Relies on C12 for the behaviour of rf_(un)pack_*. Trusted: clang 14 front end, ir2json, path enumerator with the stated call-effect table for pack functions.",
       "DESIGN.md section 2 C13")
+claim("C14", "taint/guard analysis of the decoder over LLVM IR (who-may-touch the raw input and the cursor object, bounded-before-use of input-derived lengths, guarded divisions) + re-use of the C12 cursor obligations",
+      "other",
+      "Decides on every path: the input pointer reaches only rf_pack_init and the cursor object is opaque to the decoder; the cursor is sticky and guarded (so truncation cannot yield success); success returns the consumed count taken after the last item and the shortest successful walk equals RF_WAVHEADER_MIN_SIZE; every input-derived length is bounded before it advances the cursor; validate/get_format/tostring have no loop, total switches and zero-guarded divisions.",
+      "Agreement with an independent reference parser on all byte strings is NOT decided. Relies on C12 for the memory safety of rf_(un)pack_*; libc formatter assumed safe. Trusted: clang 14 front end, ir2json, path enumerator with the stated call-effect table.",
+      "DESIGN.md section 2 C14")
